@@ -485,7 +485,7 @@ func childC06cold(tier string, rng *Rng) {
 		if d == "" {
 			d = "-"
 		}
-		fmt.Printf("COLD %d %s %d %d %s\n", same, ref.status, ref.n, ref.nils, d)
+		fmt.Fprintf(caseOut, "COLD %d %s %d %d %s\n", same, ref.status, ref.n, ref.nils, d)
 	}
 }
 
